@@ -391,6 +391,9 @@ theorem inv_step {s s' : St} {e : Ev} (hi : Inv s) (h : step s e = some s') : In
     · next hx => cases h; exact inv_release hi c _ (.closer .dropped) hx rfl rfl _ (by simp) (by simp) (by simp) (by simp)
     · next hx => cases h; exact inv_keep hi c _ (.closer .leaked) hx rfl rfl _ (by simp) (by simp) (by simp) (by simp)
     · cases h
+  | setWaker c w =>
+    simp only [step, stepSetWaker] at h
+    split at h <;> first | (cases h; exact ⟨hi.cnt, hi.rel, hi.del⟩) | cases h
 
 theorem inv_run {s s' : St} {evs : List Ev} (hi : Inv s) (h : run s evs = some s') : Inv s' := by
   induction evs generalizing s with
@@ -410,7 +413,7 @@ theorem step_released {s s' : St} {e : Ev} (h : step s e = some s') :
     s'.released = s.released ∨ (s'.released = s.released + 1 ∧ s.count = 1) := by
   cases e <;>
     simp only [step, stepClone, stepOpStart, stepDrop, stepDropCheck, stepDropDec, stepTryUnwrap, stepTake,
-      stepClose, stepPoll, stepPSwap, stepMicro, stepDropFut] at h <;>
+      stepClose, stepPoll, stepPSwap, stepMicro, stepDropFut, stepSetWaker] at h <;>
     (repeat' split at h) <;>
     (try cases h) <;>
     (try subst_vars) <;>
@@ -515,7 +518,7 @@ theorem uinv_drop {s : St} (hu : UInv s) (x : Nat) :
       simp at h2
       right; left; simpa using h2
     | some c0 =>
-      have hd : dropTest s = { s with slot := none, woken := c0 :: s.woken, wakes := s.wakes + 1 } := by
+      have hd : dropTest s = { s with slot := none, woken := c0 :: s.woken, wakes := s.wakes + 1, wokenW := (c0, s.slotW) :: s.wokenW, wakeLog := s.wakeLog ++ [(c0, s.slotW)] } := by
         unfold dropTest wake; simp [hw, hs]
       have hwin0 := hu.w1 c0 hs
       rw [hd] at hp ⊢
@@ -659,6 +662,12 @@ theorem uinv_step {s s' : St} {e : Ev} (hi : Inv s) (hu : UInv s) (he : e.unsync
     (h : step s e = some s') : UInv s' := by
   cases e with
   | dropCheck x | dropDec x | pSwap x | pNone x | pTry1 x | pReg x | pTry2 x | pBegin x => simp [Ev.unsync] at he
+  | setWaker c w =>
+    simp only [step, stepSetWaker] at h
+    split at h <;> first
+      | (cases h
+         exact uinv_frame hu (fun c hc => hc) rfl (fun c h => h) rfl rfl (fun c _ hj => hj))
+      | cases h
   | clone x =>
     simp only [step, stepClone] at h
     split at h
@@ -868,7 +877,7 @@ theorem kinv_set {s : St} (hk : KInv s) (i : Nat) (old new : Role) (hx : s.actor
 theorem kinv_step {s s' : St} {e : Ev} (hk : KInv s) (h : step s e = some s') : KInv s' := by
   cases e <;>
     simp only [step, stepClone, stepOpStart, stepDrop, stepDropCheck, stepDropDec, stepTryUnwrap, stepTake,
-      stepClose, stepPoll, stepPSwap, stepMicro, stepDropFut] at h <;>
+      stepClose, stepPoll, stepPSwap, stepMicro, stepDropFut, stepSetWaker] at h <;>
     (repeat' split at h) <;>
     (try cases h) <;>
     (try subst_vars) <;>
@@ -934,7 +943,7 @@ theorem step_target_holds {s s' : St} {e : Ev} (h : step s e = some s') :
     ∃ r, s.actors[e.target]? = some r ∧ r.holds = true := by
   cases e <;>
     simp only [step, stepClone, stepOpStart, stepDrop, stepDropCheck, stepDropDec, stepTryUnwrap, stepTake,
-      stepClose, stepPoll, stepPSwap, stepMicro, stepDropFut] at h <;>
+      stepClose, stepPoll, stepPSwap, stepMicro, stepDropFut, stepSetWaker] at h <;>
     (repeat' split at h) <;>
     (first
       | exact ⟨_, by assumption, rfl⟩
@@ -953,6 +962,571 @@ theorem stuck_forever {s s' : St} {e : Ev} {c : Nat} (hi : Inv s) (hc : s.parked
   · have := refs_two s.actors e.target c r _ hne hr hc hh rfl
     have := hi.cnt
     omega
+
+end Compio.SharedFd
+
+namespace Compio.SharedFd
+
+/-! ## waker identity: the slot holds the waker of the latest poll -/
+
+theorem wOf_cons_self (l : List (Nat × Nat)) (c w : Nat) : wOf ((c, w) :: l) c = w := by
+  simp [wOf, List.lookup]
+
+theorem wOf_cons_ne (l : List (Nat × Nat)) (c c' w : Nat) (h : c' ≠ c) : wOf ((c, w) :: l) c' = wOf l c' := by
+  have : (c' == c) = false := by simp [h]
+  simp [wOf, List.lookup, this]
+
+theorem role_set {l : List Role} {i c : Nat} {r q : Role} (h : (l.set i r)[c]? = some q) (hr : r ≠ q) :
+    l[c]? = some q := by
+  rcases getElem?_set_cases l i c r _ h with ⟨_, h1⟩ | ⟨_, h1⟩
+  · exact h1
+  · exact absurd h1.symm hr
+
+theorem role_append {l : List Role} {c : Nat} {r q : Role} (h : (l ++ [r])[c]? = some q) (hr : r ≠ q) :
+    l[c]? = some q := by
+  rcases getElem?_append_cases l r _ c h with h1 | ⟨_, h1⟩
+  · exact h1
+  · exact absurd h1.symm hr
+
+def St.try2 (s : St) (c : Nat) : Prop := s.actors[c]? = some (.closer .try2)
+
+/-- the waker in the slot is the one supplied by the closer's current / latest poll -/
+structure SInv (s : St) : Prop where
+  s1 : ∀ c, s.parked c → s.slot = some c → s.slotW = wOf s.parkedW c
+  s2 : ∀ c, s.try2 c → s.slot = some c → s.slotW = wOf s.nextW c
+
+theorem sinv_init (b : Bool) : SInv (init b) := by
+  constructor <;> intro c _ h <;> simp [init] at h
+
+theorem sinv_frame {s s' : St} (hs : SInv s) (hp : ∀ c, s'.parked c → s.parked c)
+    (ht : ∀ c, s'.try2 c → s.try2 c) (hslot : ∀ c, s'.slot = some c → s.slot = some c)
+    (hsw : s'.slotW = s.slotW) (hpw : s'.parkedW = s.parkedW)
+    (hnw : ∀ c, s'.try2 c → wOf s'.nextW c = wOf s.nextW c) : SInv s' := by
+  constructor
+  · intro c h1 h2; rw [hsw, hpw]; exact hs.s1 c (hp c h1) (hslot c h2)
+  · intro c h1 h2; rw [hsw, hnw c h1]; exact hs.s2 c (ht c h1) (hslot c h2)
+
+/-- steps of shape "set one actor to a role that is neither parked nor try2, maybe wake, maybe decrement" -/
+theorem sinv_set {s s' : St} (hs : SInv s) (i : Nat) (r : Role) (hr1 : r ≠ .closer .parked)
+    (hr2 : r ≠ .closer .try2) (ha : s'.actors = s.actors.set i r)
+    (hslot : ∀ c, s'.slot = some c → s.slot = some c)
+    (hsw : s'.slotW = s.slotW) (hpw : s'.parkedW = s.parkedW) (hnw : s'.nextW = s.nextW) : SInv s' := by
+  apply sinv_frame hs _ _ hslot hsw hpw (fun c _ => by rw [hnw])
+  · intro c h; unfold St.parked at h ⊢; rw [ha] at h; exact role_set h hr1
+  · intro c h; unfold St.try2 at h ⊢; rw [ha] at h; exact role_set h hr2
+
+theorem sinv_app {s s' : St} (hs : SInv s) (r : Role) (hr1 : r ≠ .closer .parked)
+    (hr2 : r ≠ .closer .try2) (ha : s'.actors = s.actors ++ [r])
+    (hslot : s'.slot = s.slot)
+    (hsw : s'.slotW = s.slotW) (hpw : s'.parkedW = s.parkedW) (hnw : s'.nextW = s.nextW) : SInv s' := by
+  apply sinv_frame hs _ _ (fun c h => by rw [← hslot]; exact h) hsw hpw (fun c _ => by rw [hnw])
+  · intro c h; unfold St.parked at h ⊢; rw [ha] at h; exact role_append h hr1
+  · intro c h; unfold St.try2 at h ⊢; rw [ha] at h; exact role_append h hr2
+
+@[simp] theorem wake_slotW (s : St) : (wake s).slotW = s.slotW := by unfold wake; split <;> rfl
+@[simp] theorem wake_parkedW (s : St) : (wake s).parkedW = s.parkedW := by unfold wake; split <;> rfl
+@[simp] theorem wake_nextW (s : St) : (wake s).nextW = s.nextW := by unfold wake; split <;> rfl
+theorem wake_slot (s : St) (c : Nat) (h : (wake s).slot = some c) : s.slot = some c := by
+  unfold wake at h; split at h <;> simp_all
+@[simp] theorem dropTest_slotW (s : St) : (dropTest s).slotW = s.slotW := by unfold dropTest; split <;> simp
+@[simp] theorem dropTest_parkedW (s : St) : (dropTest s).parkedW = s.parkedW := by unfold dropTest; split <;> simp
+@[simp] theorem dropTest_nextW (s : St) : (dropTest s).nextW = s.nextW := by unfold dropTest; split <;> simp
+theorem dropTest_slot (s : St) (c : Nat) (h : (dropTest s).slot = some c) : s.slot = some c := by
+  unfold dropTest at h; split at h
+  · exact wake_slot s c h
+  · exact h
+@[simp] theorem decRef_slotW (s : St) : (decRef s).slotW = s.slotW := by unfold decRef; split <;> rfl
+@[simp] theorem decRef_parkedW (s : St) : (decRef s).parkedW = s.parkedW := by unfold decRef; split <;> rfl
+@[simp] theorem decRef_nextW (s : St) : (decRef s).nextW = s.nextW := by unfold decRef; split <;> rfl
+@[simp] theorem deliver_slotW (s : St) : (deliver s).slotW = s.slotW := rfl
+@[simp] theorem deliver_parkedW (s : St) : (deliver s).parkedW = s.parkedW := rfl
+@[simp] theorem deliver_nextW (s : St) : (deliver s).nextW = s.nextW := rfl
+@[simp] theorem decRef_wokenW (s : St) : (decRef s).wokenW = s.wokenW := by unfold decRef; split <;> rfl
+@[simp] theorem deliver_wokenW (s : St) : (deliver s).wokenW = s.wokenW := rfl
+@[simp] theorem setRole_wokenW (s : St) (i : Nat) (r : Role) : (setRole s i r).wokenW = s.wokenW := rfl
+@[simp] theorem setRole_slotW (s : St) (i : Nat) (r : Role) : (setRole s i r).slotW = s.slotW := rfl
+@[simp] theorem setRole_parkedW (s : St) (i : Nat) (r : Role) : (setRole s i r).parkedW = s.parkedW := rfl
+@[simp] theorem setRole_nextW (s : St) (i : Nat) (r : Role) : (setRole s i r).nextW = s.nextW := rfl
+
+/-- a closer parks having just registered (whole poll), or parks after `register` (micro steps) -/
+theorem sinv_park {s s' : St} (hs : SInv s) (c : Nat) (ha : s'.actors = s.actors.set c (.closer .parked))
+    (hc : ∃ r, s.actors[c]? = some r)
+    (hpw : s'.parkedW = (c, wOf s.nextW c) :: s.parkedW) (hnw : s'.nextW = s.nextW)
+    (hcase : (s'.slot = some c ∧ s'.slotW = wOf s.nextW c) ∨
+      (s.try2 c ∧ s'.slot = s.slot ∧ s'.slotW = s.slotW)) : SInv s' := by
+  constructor
+  · intro c' h1 h2
+    unfold St.parked at h1
+    rw [ha] at h1
+    by_cases hcc : c' = c
+    · subst hcc
+      rw [hpw, wOf_cons_self]
+      rcases hcase with ⟨_, h4⟩ | ⟨h3, h4, h5⟩
+      · exact h4
+      · rw [h5]; exact hs.s2 c' h3 (by rw [← h4]; exact h2)
+    · rw [hpw, wOf_cons_ne _ _ _ _ hcc]
+      have hp : s.parked c' := by
+        unfold St.parked
+        rw [getElem?_set_ne' _ _ _ _ (fun h => hcc h.symm)] at h1
+        exact h1
+      rcases hcase with ⟨h3, _⟩ | ⟨_, h4, h5⟩
+      · rw [h3] at h2; simp at h2; exact absurd h2.symm hcc
+      · rw [h5]; exact hs.s1 c' hp (by rw [← h4]; exact h2)
+  · intro c' h1 h2
+    unfold St.try2 at h1
+    rw [ha] at h1
+    have h1' := role_set h1 (by simp)
+    by_cases hcc : c' = c
+    · subst hcc
+      obtain ⟨r, hr⟩ := hc
+      rw [getElem?_set_self' _ _ _ _ hr] at h1
+      simp at h1
+    · rw [hnw]
+      rcases hcase with ⟨h3, _⟩ | ⟨_, h4, h5⟩
+      · rw [h3] at h2; simp at h2; exact absurd h2.symm hcc
+      · rw [h5]; exact hs.s2 c' h1' (by rw [← h4]; exact h2)
+
+theorem sinv_reg {s : St} (_hs : SInv s) (c : Nat) (hc : ∃ r, s.actors[c]? = some r) : SInv (register s c) := by
+  obtain ⟨r, hr⟩ := hc
+  constructor
+  · intro c' h1 h2
+    unfold St.parked register at h1
+    simp at h1
+    simp [register] at h2
+    subst h2
+    rw [getElem?_set_self' _ _ _ _ hr] at h1
+    simp at h1
+  · intro c' h1 h2
+    simp [register] at h2 ⊢
+    subst h2
+    rfl
+
+theorem sinv_pollBody {s : St} (hs : SInv s) (c : Nat) (hc : ∃ r, s.actors[c]? = some r) :
+    SInv (pollBody s c) := by
+  unfold pollBody
+  split
+  · exact sinv_set hs c (.closer .doneSome) (by simp) (by simp) rfl (fun _ h => h) rfl rfl rfl
+  · exact sinv_park hs c rfl hc rfl rfl (Or.inl ⟨rfl, rfl⟩)
+
+theorem sinv_congr {s s' : St} (hs : SInv s) (ha : s'.actors = s.actors) (h1 : s'.slot = s.slot)
+    (h2 : s'.slotW = s.slotW) (h3 : s'.parkedW = s.parkedW) (h4 : s'.nextW = s.nextW) : SInv s' := by
+  constructor
+  · intro c hp hsl
+    unfold St.parked at hp
+    rw [ha] at hp; rw [h1] at hsl; rw [h2, h3]; exact hs.s1 c hp hsl
+  · intro c hp hsl
+    unfold St.try2 at hp
+    rw [ha] at hp; rw [h1] at hsl; rw [h2, h4]; exact hs.s2 c hp hsl
+
+theorem sinv_step {s s' : St} {e : Ev} (hs : SInv s) (h : step s e = some s') : SInv s' := by
+  cases e with
+  | clone x =>
+    simp only [step, stepClone] at h
+    split at h
+    · cases h; exact sinv_app hs _ (by simp) (by simp) rfl rfl rfl rfl rfl
+    · cases h
+  | opStart x =>
+    simp only [step, stepOpStart] at h
+    split at h
+    · cases h; exact sinv_app hs _ (by simp) (by simp) rfl rfl rfl rfl rfl
+    · cases h
+  | drop x =>
+    simp only [step, stepDrop] at h
+    split at h
+    · cases h
+      exact sinv_set hs x .gone (by simp) (by simp) (by simp) (fun c h => dropTest_slot s c (by simpa using h))
+        (by simp) (by simp) (by simp)
+    · cases h
+      exact sinv_set hs x .gone (by simp) (by simp) (by simp) (fun c h => dropTest_slot s c (by simpa using h))
+        (by simp) (by simp) (by simp)
+    · cases h
+  | dropCheck x =>
+    simp only [step, stepDropCheck] at h
+    split at h
+    · split at h
+      · cases h
+        exact sinv_set hs x (.handle .checked) (by simp) (by simp) (by simp) (fun c h => dropTest_slot s c (by simpa using h))
+          (by simp) (by simp) (by simp)
+      · cases h
+        exact sinv_set hs x (.op .checked) (by simp) (by simp) (by simp) (fun c h => dropTest_slot s c (by simpa using h))
+          (by simp) (by simp) (by simp)
+      · cases h
+    · cases h
+  | dropDec x =>
+    simp only [step, stepDropDec] at h
+    split at h
+    · split at h
+      · cases h
+        exact sinv_set hs x .gone (by simp) (by simp) (by simp) (fun c h => by simpa using h) (by simp) (by simp) (by simp)
+      · cases h
+        exact sinv_set hs x .gone (by simp) (by simp) (by simp) (fun c h => by simpa using h) (by simp) (by simp) (by simp)
+      · cases h
+    · cases h
+  | tryUnwrap x =>
+    simp only [step, stepTryUnwrap] at h
+    split at h
+    · split at h
+      · cases h
+        exact sinv_set hs x .gone (by simp) (by simp) (by simp) (fun c h => by simpa using h) (by simp) (by simp) (by simp)
+      · cases h; exact hs
+    · cases h
+  | take x =>
+    simp only [step, stepTake] at h
+    split at h
+    · cases h
+      exact sinv_set hs x (.closer .created) (by simp) (by simp) rfl (fun c h => h) rfl rfl rfl
+    · cases h
+  | close x =>
+    simp only [step, stepClose] at h
+    split at h
+    · cases h
+      exact sinv_set hs x (.closer .wrapped) (by simp) (by simp) rfl (fun c h => h) rfl rfl rfl
+    · cases h
+  | poll c =>
+    simp only [step, stepPoll] at h
+    split at h
+    · next hx =>
+      cases h
+      unfold firstPoll
+      split
+      · exact sinv_set hs c (.closer .doneNone) (by simp) (by simp) (by simp [loseNone])
+          (fun c h => by simpa [loseNone] using h) (by simp [loseNone]) (by simp [loseNone]) (by simp [loseNone])
+      · exact sinv_pollBody (sinv_congr (s' := { s with waits := true, winner := some c }) hs rfl rfl rfl rfl rfl) c ⟨_, hx⟩
+    · next hx =>
+      cases h
+      unfold firstPoll
+      split
+      · exact sinv_set hs c (.closer .doneNone) (by simp) (by simp) (by simp [loseNone])
+          (fun c h => by simpa [loseNone] using h) (by simp [loseNone]) (by simp [loseNone]) (by simp [loseNone])
+      · exact sinv_pollBody (sinv_congr (s' := { s with waits := true, winner := some c }) hs rfl rfl rfl rfl rfl) c ⟨_, hx⟩
+    · next hx =>
+      cases h
+      exact sinv_pollBody (sinv_congr (s' := clearWoken s c) hs rfl rfl rfl rfl rfl) c ⟨_, hx⟩
+    · cases h
+  | pSwap c =>
+    simp only [step, stepPSwap] at h
+    split at h
+    · split at h
+      · cases h
+        unfold swapWaits
+        split
+        · exact sinv_set hs c (.closer .losing) (by simp) (by simp) rfl (fun c h => h) rfl rfl rfl
+        · exact sinv_set hs c (.closer .try1) (by simp) (by simp) rfl (fun c h => h) rfl rfl rfl
+      · cases h
+        unfold swapWaits
+        split
+        · exact sinv_set hs c (.closer .losing) (by simp) (by simp) rfl (fun c h => h) rfl rfl rfl
+        · exact sinv_set hs c (.closer .try1) (by simp) (by simp) rfl (fun c h => h) rfl rfl rfl
+      · cases h
+    · cases h
+  | pNone c =>
+    simp only [step, stepMicro] at h
+    split at h
+    · split at h
+      · split at h
+        · cases h
+          exact sinv_set hs c (.closer .doneNone) (by simp) (by simp) (by simp [loseNone])
+            (fun c h => by simpa [loseNone] using h) (by simp [loseNone]) (by simp [loseNone]) (by simp [loseNone])
+        · cases h
+      · cases h
+    · cases h
+  | pTry1 c =>
+    simp only [step, stepMicro] at h
+    split at h
+    · split at h
+      · split at h
+        · cases h
+          unfold tryUnwrap1
+          split
+          · exact sinv_set hs c (.closer .doneSome) (by simp) (by simp) rfl (fun c h => h) rfl rfl rfl
+          · exact sinv_set hs c (.closer .reg) (by simp) (by simp) rfl (fun c h => h) rfl rfl rfl
+        · cases h
+      · cases h
+    · cases h
+  | pReg c =>
+    simp only [step, stepMicro] at h
+    split at h
+    · split at h
+      · next pc hx =>
+        split at h
+        · cases h; exact sinv_reg hs c ⟨_, hx⟩
+        · cases h
+      · cases h
+    · cases h
+  | pTry2 c =>
+    simp only [step, stepMicro] at h
+    split at h
+    · split at h
+      · next pc hx =>
+        split at h
+        · next hpc =>
+          cases h
+          subst hpc
+          unfold tryUnwrap2
+          split
+          · exact sinv_set hs c (.closer .doneSome) (by simp) (by simp) rfl (fun c h => h) rfl rfl rfl
+          · exact sinv_park hs c rfl ⟨_, hx⟩ rfl rfl (Or.inr ⟨hx, rfl, rfl⟩)
+        · cases h
+      · cases h
+    · cases h
+  | pBegin c =>
+    simp only [step, stepMicro] at h
+    split at h
+    · split at h
+      · split at h
+        · cases h
+          exact sinv_set hs c (.closer .try1) (by simp) (by simp) (by simp [beginPoll, clearWoken])
+            (fun c h => by simpa [beginPoll, clearWoken] using h) (by simp [beginPoll, clearWoken])
+            (by simp [beginPoll, clearWoken]) (by simp [beginPoll, clearWoken])
+        · cases h
+      · cases h
+    · cases h
+  | dropFut c =>
+    simp only [step, stepDropFut] at h
+    split at h
+    · cases h
+      exact sinv_set hs c (.closer .dropped) (by simp) (by simp) (by simp) (fun c h => by simpa using h) (by simp) (by simp) (by simp)
+    · cases h
+      exact sinv_set hs c (.closer .dropped) (by simp) (by simp) (by simp) (fun c h => by simpa using h) (by simp) (by simp) (by simp)
+    · cases h
+      exact sinv_set hs c (.closer .leaked) (by simp) (by simp) rfl (fun c h => h) rfl rfl rfl
+    · cases h
+  | setWaker c w =>
+    simp only [step, stepSetWaker] at h
+    have key : ∀ (hx : ¬ s.try2 c), SInv { s with nextW := (c, w) :: s.nextW } := by
+      intro hx
+      refine sinv_frame (s' := { s with nextW := (c, w) :: s.nextW }) hs (fun _ h => h) (fun _ h => h)
+        (fun _ h => h) rfl rfl ?_
+      intro c' hc'
+      have : c' ≠ c := by
+        intro h; subst h; exact hx hc'
+      exact wOf_cons_ne _ _ _ _ this
+    split at h
+    · next hx => cases h; exact key (by unfold St.try2; rw [hx]; simp)
+    · next hx => cases h; exact key (by unfold St.try2; rw [hx]; simp)
+    · next hx => cases h; exact key (by unfold St.try2; rw [hx]; simp)
+    · cases h
+
+theorem sinv_run {s s' : St} {evs : List Ev} (hs : SInv s) (h : run s evs = some s') : SInv s' := by
+  induction evs generalizing s with
+  | nil => simp [run] at h; subst h; exact hs
+  | cons e es ih =>
+    simp only [run] at h
+    split at h
+    · next s1 h1 => exact ih (sinv_step hs h1) h
+    · cases h
+
+/-- single-threaded executions: a pending wake-up of a parked closer went to the waker of its latest poll -/
+structure VInv (s : St) : Prop where
+  v1 : ∀ c, c ∈ s.woken → s.winner = some c
+  v2 : ∀ c, s.parked c → c ∈ s.woken → (c, wOf s.parkedW c) ∈ s.wokenW
+
+theorem vinv_init (b : Bool) : VInv (init b) := by
+  constructor <;> intro c <;> simp [init]
+
+theorem vinv_frame {s s' : St} (hv : VInv s) (hp : ∀ c, s'.parked c → s.parked c)
+    (h1 : s'.woken = s.woken) (h2 : s'.wokenW = s.wokenW) (h3 : s'.winner = s.winner)
+    (h4 : s'.parkedW = s.parkedW) : VInv s' := by
+  constructor
+  · intro c hc; rw [h3]; exact hv.v1 c (by rw [← h1]; exact hc)
+  · intro c hc hw; rw [h2, h4]; exact hv.v2 c (hp c hc) (by rw [← h1]; exact hw)
+
+theorem vinv_drop {s : St} (hu : UInv s) (hs : SInv s) (hv : VInv s) (x : Nat) :
+    VInv (decRef (setRole (dropTest s) x .gone)) := by
+  have hp : ∀ c, (decRef (setRole (dropTest s) x .gone)).parked c → s.parked c := by
+    intro c h
+    unfold St.parked at h ⊢
+    simp at h
+    exact parked_set h (by simp)
+  by_cases hw : s.count = 2 ∧ s.waits = true
+  · cases hsl : s.slot with
+    | none =>
+      have hd : dropTest s = s := by unfold dropTest wake; simp [hw, hsl]
+      rw [hd] at hp ⊢
+      exact vinv_frame hv hp (by simp) (by simp) (by simp) (by simp)
+    | some c0 =>
+      have hd : dropTest s = { s with slot := none, woken := c0 :: s.woken, wakes := s.wakes + 1, wokenW := (c0, s.slotW) :: s.wokenW, wakeLog := s.wakeLog ++ [(c0, s.slotW)] } := by
+        unfold dropTest wake; simp [hw, hsl]
+      rw [hd] at hp ⊢
+      constructor
+      · intro c hc
+        simp at hc ⊢
+        rcases hc with hc | hc
+        · subst hc; exact hu.w1 c hsl
+        · exact hv.v1 c hc
+      · intro c hc hwk
+        have hpc := hp c hc
+        simp only [decRef_woken, setRole_woken, List.mem_cons] at hwk
+        simp only [decRef_wokenW, setRole_wokenW, decRef_parkedW, setRole_parkedW, List.mem_cons]
+        rcases hwk with hwk | hwk
+        · subst hwk
+          left
+          rw [hs.s1 c hpc hsl]
+        · right; exact hv.v2 c hpc hwk
+  · have hd : dropTest s = s := by unfold dropTest; simp [hw]
+    rw [hd] at hp ⊢
+    exact vinv_frame hv hp (by simp) (by simp) (by simp) (by simp)
+
+theorem vinv_step {s s' : St} {e : Ev} (hu : UInv s) (hs : SInv s) (hv : VInv s) (he : e.unsync = true)
+    (h : step s e = some s') : VInv s' := by
+  cases e with
+  | dropCheck x | dropDec x | pSwap x | pNone x | pTry1 x | pReg x | pTry2 x | pBegin x => simp [Ev.unsync] at he
+  | setWaker c w =>
+    simp only [step, stepSetWaker] at h
+    split at h <;> first
+      | (cases h; exact vinv_frame hv (fun c hc => hc) rfl rfl rfl rfl)
+      | cases h
+  | clone x =>
+    simp only [step, stepClone] at h
+    split at h
+    · cases h
+      exact vinv_frame hv (fun c hc => parked_append hc (by simp)) rfl rfl rfl rfl
+    · cases h
+  | opStart x =>
+    simp only [step, stepOpStart] at h
+    split at h
+    · cases h
+      exact vinv_frame hv (fun c hc => parked_append hc (by simp)) rfl rfl rfl rfl
+    · cases h
+  | drop x =>
+    simp only [step, stepDrop] at h
+    split at h
+    · cases h; exact vinv_drop hu hs hv x
+    · cases h; exact vinv_drop hu hs hv x
+    · cases h
+  | tryUnwrap x =>
+    simp only [step, stepTryUnwrap] at h
+    split at h
+    · split at h
+      · cases h
+        refine vinv_frame hv ?_ rfl rfl rfl rfl
+        intro c hc
+        unfold St.parked at hc ⊢
+        simp at hc
+        exact parked_set hc (by simp)
+      · cases h; exact hv
+    · cases h
+  | take x =>
+    simp only [step, stepTake] at h
+    split at h
+    · cases h
+      refine vinv_frame hv ?_ rfl rfl rfl rfl
+      intro c hc
+      unfold St.parked at hc ⊢
+      simp at hc
+      exact parked_set hc (by simp)
+    · cases h
+  | close x =>
+    simp only [step, stepClose] at h
+    split at h
+    · cases h
+      refine vinv_frame hv ?_ rfl rfl rfl rfl
+      intro c hc
+      unfold St.parked at hc ⊢
+      simp at hc
+      exact parked_set hc (by simp)
+    · cases h
+  | poll c0 =>
+    simp only [step, stepPoll] at h
+    have first : ∀ (r : Role), s.actors[c0]? = some r → VInv (firstPoll s c0) := by
+      intro r hx
+      unfold firstPoll
+      split
+      · unfold loseNone
+        refine vinv_frame hv ?_ (by simp) (by simp) (by simp) (by simp)
+        intro c hc
+        unfold St.parked at hc ⊢
+        simp at hc
+        exact parked_set hc (by simp)
+      · next hw =>
+        have hnone : s.winner = none := by
+          cases hwin : s.winner with
+          | none => rfl
+          | some c => have := hu.w3 c hwin; simp [this] at hw
+        have hempty : ∀ c, c ∉ s.woken := by
+          intro c hc
+          have := hv.v1 c hc
+          simp [hnone] at this
+        unfold pollBody
+        split
+        · constructor
+          · intro c hc; simp at hc; exact absurd hc (hempty c)
+          · intro c _ hc; simp at hc; exact absurd hc (hempty c)
+        · constructor
+          · intro c hc; simp at hc; exact absurd hc (hempty c)
+          · intro c _ hc; simp at hc; exact absurd hc (hempty c)
+    split at h
+    · next hx => cases h; exact first _ hx
+    · next hx => cases h; exact first _ hx
+    · next hx =>
+      cases h
+      have hwin := (hu.w2 c0 hx).1
+      have huniq : ∀ c, s.parked c → c = c0 := by
+        intro c hc
+        have := (hu.w2 c hc).1
+        rw [hwin] at this
+        simpa using this.symm
+      have hmem : ∀ c, c ∈ (s.woken.filter (· != c0)) → c ∈ s.woken ∧ c ≠ c0 := by
+        intro c hc
+        simp [List.mem_filter] at hc
+        exact hc
+      unfold pollBody
+      split
+      · constructor
+        · intro c hc
+          simp [clearWoken] at hc ⊢
+          exact hv.v1 c hc.1
+        · intro c hc hwk
+          unfold St.parked at hc
+          simp [clearWoken] at hc hwk
+          have := huniq c (parked_set hc (by simp))
+          exact absurd this hwk.2
+      · constructor
+        · intro c hc
+          simp [clearWoken] at hc ⊢
+          exact hv.v1 c hc.1
+        · intro c hc hwk
+          unfold St.parked at hc
+          simp [clearWoken] at hc hwk
+          rcases getElem?_set_cases _ c0 c _ _ hc with ⟨hne, h2⟩ | ⟨h2, _⟩
+          · exact absurd (huniq c h2) hwk.2
+          · exact absurd h2.symm hwk.2
+    · cases h
+  | dropFut c0 =>
+    simp only [step, stepDropFut] at h
+    split at h
+    · cases h
+      refine vinv_frame hv ?_ (by simp) (by simp) (by simp) (by simp)
+      intro c hc
+      unfold St.parked at hc ⊢
+      simp at hc
+      exact parked_set hc (by simp)
+    · cases h
+      refine vinv_frame hv ?_ (by simp) (by simp) (by simp) (by simp)
+      intro c hc
+      unfold St.parked at hc ⊢
+      simp at hc
+      exact parked_set hc (by simp)
+    · cases h
+      refine vinv_frame hv ?_ rfl rfl rfl rfl
+      intro c hc
+      unfold St.parked at hc ⊢
+      simp at hc
+      exact parked_set hc (by simp)
+    · cases h
+
+theorem allinv_run {s s' : St} {evs : List Ev} (hi : Inv s) (hu : UInv s) (hs : SInv s) (hv : VInv s)
+    (he : ∀ e ∈ evs, e.unsync = true) (h : run s evs = some s') : Inv s' ∧ UInv s' ∧ SInv s' ∧ VInv s' := by
+  induction evs generalizing s with
+  | nil => simp [run] at h; subst h; exact ⟨hi, hu, hs, hv⟩
+  | cons e es ih =>
+    simp only [run] at h
+    split at h
+    · next s1 h1 =>
+      have he1 := he e (by simp)
+      exact ih (inv_step hi h1) (uinv_step hi hu he1 h1) (sinv_step hs h1) (vinv_step hu hs hv he1 h1)
+        (fun e' he' => he e' (by simp [he'])) h
+    · cases h
 
 end Compio.SharedFd
 
